@@ -52,7 +52,7 @@ TIMEOUT = {"quick": 600, "thorough": 2400}
 WORKERS = {"quick": 16, "thorough": 16}
 EXHAUSTIVE = {"quick": False, "thorough": False}
 
-N_MODELS = {"quick": 800, "thorough": 9600}
+N_MODELS = {"quick": 640, "thorough": 9600}
 N_PLACEMENTS = {"quick": 10, "thorough": 54}
 PLACEMENTS = ["dram", "sram", "fixed"]
 SETTINGS = [
@@ -248,15 +248,16 @@ def geometry_key(n):
 
 
 def relation(n, got, exp):
+  """Mechanism class of a wrong count (most specific explanation first)."""
   r = n["expect"]
   if got == 0:
     return "zero"
-  if r.get("positions", 1) > 1 and got * r["positions"] == exp:
-    return "missing_output_positions"
   if n.get("groups", 1) > 1 and got == exp * n["groups"]:
     return "groups_ignored"
   if n.get("depth_multiplier", 1) > 1 and got * n["depth_multiplier"] == exp:
     return "depth_multiplier_ignored"
+  if r.get("positions", 1) > 1 and got * r["positions"] == exp:
+    return "missing_output_positions"
   if got == r.get("mac_real") and got != exp:
     return "padding_taps_excluded"
   return "other"
